@@ -23,6 +23,7 @@ def mk_cfg(ctx, variant="main"):
                       use_iter=False, use_exit=False, max_denies=1, create_time_event=True)
     return pm.Cfg(seed=ctx.seed, slots=("A",), max_objs=3 if ctx.thorough else 2, actions=("sig65",), clock=True,
                   queries=(), numeric=True, use_iter=True, use_exit=ctx.thorough, oneshot=True,
+                  sys_calls=pm.SYS_CALLS if ctx.thorough else pm.SYS_CALLS[:1],
                   iterhold=True, comm={"A": b"a) b c"})
 
 
